@@ -466,7 +466,6 @@ func c14r2(c *Ctx, r *Report) {
 			q, _ := constInt(l.Const("fzf", "EvtQuit"))
 			return isc && k == q
 		}},
-		{"killPreview()", func(in ssa.Instruction) bool { return staticCallee(in) == l.Fn("fzf", "(*Terminal).killPreview") }},
 		{"cancel()", func(in ssa.Instruction) bool {
 			ci, ok := in.(ssa.CallInstruction)
 			if !ok {
@@ -478,6 +477,88 @@ func c14r2(c *Ctx, r *Report) {
 		goal := pathAvoiding(entry, isReturn, need.is, nil)
 		r.check(goal == nil, relName(render)+":after loop "+need.name, render.Pos(), render, "every return of the render goroutine passes "+need.name, "a path leaves the render loop without it")
 	}
+	// the event that lets the process exit is posted only after the preview kill was delivered:
+	// (a) Set(EvtQuit) is dominated by the killPreview call (when a previewer exists),
+	// (b) killPreview delivers through a blocking select (no `default`) and then awaits the previewer
+	kp := l.Fn("fzf", "(*Terminal).killPreview")
+	if kp == nil {
+		r.unest(relName(render)+":killPreview", token.NoPos, render, "anchor Terminal.killPreview", "cannot resolve")
+	} else {
+		var quitSets []ssa.Instruction
+		var kpCall ssa.Instruction
+		eachInstr(render, func(in ssa.Instruction) {
+			if cc, ok := isCall(in, setName); ok {
+				k, isc := constIntVal(cc.Args[1])
+				q, _ := constInt(l.Const("fzf", "EvtQuit"))
+				if isc && k == q {
+					quitSets = append(quitSets, in)
+				}
+			}
+			if staticCallee(in) == kp {
+				kpCall = in
+			}
+		})
+		okOrder := len(quitSets) > 0 && kpCall != nil
+		hasPrev := l.Fn("fzf", "(*Terminal).hasPreviewer")
+		for _, quitSet := range quitSets {
+			if !okOrder {
+				break
+			}
+			qs := quitSet
+			if !canReach(kpCall, qs) || canReach(qs, kpCall) {
+				okOrder = false
+				break
+			}
+			// every path to Set(EvtQuit) on which a previewer exists passes killPreview
+			entry := render.Blocks[0].Instrs[0]
+			skip := feasiblePathAvoiding(entry, func(i ssa.Instruction) bool { return i == qs }, func(i ssa.Instruction) bool { return i == kpCall }, func(from, to *ssa.BasicBlock) bool {
+				// do not follow the edge on which hasPreviewer() is false: nothing to kill there
+				ifi, ok := from.Instrs[len(from.Instrs)-1].(*ssa.If)
+				if !ok {
+					return true
+				}
+				atom, neg := normCond(ifi.Cond)
+				call, ok := atom.(*ssa.Call)
+				if !ok || call.Common().StaticCallee() != hasPrev {
+					return true
+				}
+				trueEdge := to == from.Succs[0]
+				return trueEdge != neg
+			})
+			if skip != nil {
+				okOrder = false
+			}
+		}
+		r.check(okOrder, relName(render)+":quit posted after preview kill", render.Pos(), render, "eventBox.Set(EvtQuit) — after which the process may exit — comes after killPreview() on every path with a previewer", "fzf can exit before the running preview command was killed: the child survives the session")
+		blocking, awaits := false, false
+		eachInstr(kp, func(in ssa.Instruction) {
+			sel, ok := in.(*ssa.Select)
+			if !ok {
+				return
+			}
+			sendsKill := false
+			for _, st := range sel.States {
+				if fld, _ := loadedField(st.Chan); fld != nil && fld.Name() == "killChan" && st.Dir == types.SendOnly {
+					sendsKill = true
+				}
+			}
+			if sendsKill && sel.Blocking {
+				blocking = true
+			}
+			if !sendsKill && sel.Blocking {
+				for _, st := range sel.States {
+					if st.Dir == types.RecvOnly {
+						if _, isParam := st.Chan.(*ssa.Parameter); isParam {
+							awaits = true
+						}
+					}
+				}
+			}
+		})
+		r.check(blocking, relName(kp)+":kill request is delivered", kp.Pos(), kp, "the kill request is sent with a blocking select (bounded by a timeout), not dropped when the watcher is momentarily busy", "non-blocking send with `default`: the request is lost unless the watcher happens to be waiting")
+		r.check(awaits, relName(kp)+":previewer awaited", kp.Pos(), kp, "killPreview then waits for the previewer goroutine to finish (bounded)", "the kill is requested but not awaited: the process can exit before the child is signalled")
+	}
+
 	// Become dominated by tui.Close
 	nB := 0
 	for _, f := range withClosures(loop) {
@@ -704,6 +785,12 @@ func c14r4(c *Ctx, r *Report) {
 				eachInstr(g, func(i2 ssa.Instruction) {
 					ci, ok := i2.(ssa.CallInstruction)
 					if !ok || len(ci.Common().Args) == 0 || !al[ci.Common().Args[0]] {
+						return
+					}
+					if _, isGo := i2.(*ssa.Go); isGo {
+						return // `go cmd.Wait()` does not reap before the next iteration
+					}
+					if _, isDefer := i2.(*ssa.Defer); isDefer {
 						return
 					}
 					switch calleeName(ci.Common()) {
